@@ -83,9 +83,31 @@ enum Pos {
     /// the same type twice in one variant, the wrong one added first / added last
     SameVariantWrongFirst,
     SameVariantWrongLast,
+    /// a later variant removes one datum and adds the subject (the variant does not grow)
+    ReplacesOne,
+    /// a later variant removes two data and adds the subject (the variant shrinks)
+    Shrinking,
+    /// added in the second variant, removed in the third
+    RemovedNext,
+    /// the first variant is empty, the subject comes in the second one
+    AfterEmptyFirst,
+    /// added between two data that may stay uninitialised
+    AmongUninit,
 }
 
-const POSITIONS: [Pos; 6] = [Pos::FirstVariant, Pos::LaterVariant, Pos::SecondUse, Pos::FirstOfTwo, Pos::SameVariantWrongFirst, Pos::SameVariantWrongLast];
+const POSITIONS: [Pos; 11] = [
+    Pos::FirstVariant,
+    Pos::LaterVariant,
+    Pos::SecondUse,
+    Pos::FirstOfTwo,
+    Pos::SameVariantWrongFirst,
+    Pos::SameVariantWrongLast,
+    Pos::ReplacesOne,
+    Pos::Shrinking,
+    Pos::RemovedNext,
+    Pos::AfterEmptyFirst,
+    Pos::AmongUninit,
+];
 
 struct Case {
     ty: usize,
@@ -162,6 +184,45 @@ fn source(t: &Ty, c: &Case) -> Option<String> {
             b.add_datum::<u8, _>("lead").unwrap();
             (t.add)(&mut b, "other_use", plain());
             (t.add)(&mut b, "subject", o);
+            b.close_record_variant();
+        }
+        Pos::ReplacesOne => {
+            b.add_datum::<i32, _>("keep").unwrap();
+            let gone = b.add_datum::<i32, _>("gone").unwrap();
+            b.close_record_variant();
+            b.remove_datum(gone).unwrap();
+            (t.add)(&mut b, "subject", o);
+            b.close_record_variant();
+        }
+        Pos::Shrinking => {
+            b.add_datum::<i32, _>("keep").unwrap();
+            let gone = b.add_datum::<i16, _>("gone").unwrap();
+            let gone_too = b.add_datum::<i64, _>("gone_too").unwrap();
+            b.close_record_variant();
+            b.remove_datum(gone).unwrap();
+            b.remove_datum(gone_too).unwrap();
+            (t.add)(&mut b, "subject", o);
+            b.close_record_variant();
+        }
+        Pos::RemovedNext => {
+            b.add_datum::<i32, _>("keep").unwrap();
+            b.close_record_variant();
+            (t.add)(&mut b, "subject", o);
+            b.close_record_variant();
+            let id = b.get_current_datum_definition_by_name("subject").expect("subject").id();
+            b.remove_datum(id).unwrap();
+            b.add_datum::<i8, _>("instead").unwrap();
+            b.close_record_variant();
+        }
+        Pos::AfterEmptyFirst => {
+            b.close_record_variant();
+            (t.add)(&mut b, "subject", o);
+            b.close_record_variant();
+        }
+        Pos::AmongUninit => {
+            b.add_datum_allow_uninit::<i16, _>("maybe").unwrap();
+            (t.add)(&mut b, "subject", o);
+            b.add_datum_allow_uninit::<i64, _>("maybe_too").unwrap();
             b.close_record_variant();
         }
     }
@@ -292,7 +353,7 @@ pub fn main(args: &Args, ext: &Externs) -> i32 {
     report
         .cov("evaluations", n)
         .cov("distinct_nontrivial", perturbed)
-        .cov("rule", format!("every type of a {}-type menu x {{first variant, later variant, second use wrong, first of two uses wrong, same variant wrong first / last}} x {{unperturbed, size-1, size+1, 2*size, align/2, 2*align, may-be-uninit flag}} recorded through add_datum_override, generated by the real generate() and type-checked by rustc --emit=metadata; non-trivial = a perturbed (or flag-on-non-Copy) case, distinct by construction", ts.len()))
+        .cov("rule", format!("every type of a {}-type menu x {{first variant, later variant, second use wrong, first of two uses wrong, same variant wrong first / last, replacing a removed datum, in a shrinking variant, removed in the next variant, after an empty first variant, between may-be-uninitialised data}} x {{unperturbed, size-1, size+1, 2*size, align/2, 2*align, may-be-uninit flag}} recorded through add_datum_override, generated by the real generate() and type-checked by rustc --emit=metadata; non-trivial = a perturbed (or flag-on-non-Copy) case, distinct by construction", ts.len()))
         .cov("samples", samples)
         .cov("exhaustive", true)
         .cov("perturbed_rejected_by_the_emitted_assertion", rejected)
